@@ -268,4 +268,69 @@ mod proofs {
         assert!(!w().bad);
         core::mem::forget(m);
     }
+
+    fn build_kt(k: &([u8; KMAX], usize)) -> DbBytes { DbBytes::from(&k.0[..k.1]) }
+
+    #[kani::proof]
+    #[kani::unwind(5)]
+    fn del_step() {
+        let n = setup();
+        let mut m: FileDbXxxInner<DbBytes> = ok(FileDbXxxInner::open_with_params("x", "m", Default::default()));
+        let k = any_key();
+        let other = any_key();
+        kani::assume(!keq(&k, &other));
+        let before_other = model_get(&other);
+        let before = model_get(&k);
+        let r = ok(m.del_kt(&build_kt(&k)));
+        match (r, before) {
+            (Some(v), Some((bv, bl))) => { assert!(v.len() == bl); let mut i = 0; while i < bl { assert!(v[i] == bv[i]); i += 1; } }
+            (None, None) => (),
+            _ => assert!(false, "delete result differs from ideal map"),
+        }
+        assert!(model_get(&k).is_none());
+        assert!(ok(m.get_kt(&build_kt(&k))).is_none());
+        assert!(ok(m.len()) == n as u64 - if before.is_some() { 1 } else { 0 });
+        let g2 = ok(m.get_kt(&build_kt(&other)));
+        assert!(g2.is_some() == before_other.is_some());
+        // both records of the deleted entry were freed, nothing else
+        let w = w();
+        if before.is_some() { assert!(w.key_freed == 1 && w.val_freed == 1); } else { assert!(w.key_freed == 0 && w.val_freed == 0); }
+        assert!(!w.bad);
+        kani::cover!(before.is_some() && n == 2, "deleted from a 2-chain");
+        core::mem::forget(m);
+    }
+
+    #[kani::proof]
+    #[kani::unwind(5)]
+    fn iter_step() {
+        use crate::filedb::inner::dbxxx::DbXxxIterMut;
+        use std::cell::RefCell;
+        use std::rc::Rc;
+        let n = setup();
+        let m: FileDbXxxInner<DbBytes> = ok(FileDbXxxInner::open_with_params("x", "m", Default::default()));
+        let rc = Rc::new(RefCell::new(m));
+        let mut it = ok(DbXxxIterMut::new(rc.clone()));
+        let mut seen = [false; NK];
+        let mut i = 0;
+        while i < n {
+            assert!(it.size_hint() == (n - i, Some(n - i)));
+            let (k, v) = it.next().unwrap();
+            // must be a stored entry not seen before, with its value
+            let kb = k.as_bytes();
+            let w = w();
+            let mut hit = NK; let mut j = 0;
+            while j < NK { if w.keys[j].used && w.keys[j].klen == kb.len() { let mut e = true; let mut t = 0; while t < kb.len() { if kb[t] != w.keys[j].key[t] { e = false; } t += 1; } if e { hit = j; } } j += 1; }
+            assert!(hit < NK, "yielded a key that is not stored");
+            assert!(!seen[hit], "yielded a key twice");
+            seen[hit] = true;
+            let vi = vfind(w.keys[hit].val_off).unwrap();
+            assert!(v.len() == w.vals[vi].vlen);
+            i += 1;
+        }
+        assert!(it.size_hint() == (0, Some(0)));
+        assert!(it.next().is_none());
+        assert!(it.next().is_none());
+        kani::cover!(n == 2, "two entries");
+        core::mem::forget(it); core::mem::forget(rc);
+    }
 }
